@@ -38,7 +38,7 @@ ASSUMPTIONS = [
     "graphs are compared by an independent blank-node matcher; a simple literal and the same form typed xsd:string are identified",
     "legal short reads are not faults and must give the identical graph",
 ]
-PROBES = ["chunk-inside-multibyte-char", "chunk-inside-escape", "chunk-between-CR-LF", "short-read-stream", "text-stream-without-buffer", "http-redirect", "format-guessed", "fault-fired", "fault-partial", "bufsiz-smaller-than-line", "raw-CR-in-literal", "awkward-path", "default-format-turtle", "relative-path-after-failed-call", "relative-path-after-chdir", "writer-own-nt", "writer-own-nquads", "writer-own-turtle", "writer-own-trig", "writer-own-xml-abbreviated", "writer-own-xml-plain", "writer-own-jsonld-with-context", "writer-own-jsonld-expanded", "writer-rdflib-xml", "writer-rdflib-json-ld", "writer-rdflib-trix", "writer-rdflib-hext"]
+PROBES = ["chunk-inside-multibyte-char", "chunk-inside-escape", "chunk-between-CR-LF", "short-read-stream", "text-stream-without-buffer", "http-redirect", "format-guessed", "fault-fired", "fault-partial", "bufsiz-smaller-than-line", "raw-CR-in-literal", "awkward-path", "default-format-turtle", "relative-path-after-failed-call", "relative-path-after-chdir", "writer-own-nt", "writer-own-nquads", "writer-own-turtle", "writer-own-trig", "writer-own-xml-abbreviated", "writer-own-xml-plain", "writer-own-jsonld-with-context", "writer-own-jsonld-expanded", "writer-rdflib-xml", "writer-rdflib-json-ld", "writer-rdflib-trix", "writer-rdflib-hext", "document-starts-with-BOM"]
 KNOWN_PREDICATES = {}
 
 OWN = ["nt", "nquads", "turtle", "trig"]
@@ -149,6 +149,8 @@ def generate(seed, tier):
             fk = g.choice(["error", "eof", "error", "eof", "http-404", "http-500", "redirect-loop"]) if m == "loc-http" else g.choice(["error", "eof"])
             deliveries.append({"uid": nm + j + 1, "k": "deliver", "mode": m, "chunks": chunk_schedule(g), "give_format": True, "fault": {"kind": fk, "frac": g.random()}})
     cfg = {"format": fmt, "quads": quads, "style_seed": g.randrange(1 << 30), "bufsiz": g.choice([1, 2, 5, 17, 64, 2048, 2048]), "enumerate": False}
+    if fmt in ("turtle", "trig") and g.chance(0.1):
+        cfg["bom"] = True  # the document starts with a byte order mark (U+FEFF): it is not part of the document, however it is handed over
     if fmt in ("turtle", "trig", "json-ld", "xml") and g.chance(0.2):
         # the base comes from the caller of parse() (publicID=...): the document declares none and writes references relative to it,
         # and every way of handing the document over must resolve them against it
@@ -252,6 +254,9 @@ def execute(trace, ctx):
         ctx.probe("writer-own-jsonld-with-context" if (cfg["style_seed"] // 4) % 3 else "writer-own-jsonld-expanded")
     else:
         ctx.probe("writer-rdflib-" + fmt)
+    if cfg.get("bom"):
+        doc = "\ufeff" + doc
+        ctx.probe("document-starts-with-BOM")
     data = doc.encode("utf-8")
     benc = "utf-8"
     if _own_xml(cfg) and cfg["style_seed"] % 3 == 0:
